@@ -17,29 +17,17 @@ func VerifC27Window(t []int64, v []float64, w, step int64, strict bool, f func(l
 	}
 }
 
-// VerifC27Reduce runs the real evalReductionRules for the (only) vector selector of expr, with the same path the
-// evaluator passes. Returns (found, depth-marker expression string, what, range, grouped, groupBy, without).
-func VerifC27Reduce(expr parser.Expr, stepMin int64) (ok bool, what string, rng int64, grouped bool, groupBy []string, without bool, replaced string) {
-	parser.Inspect(expr, func(node parser.Node, nodes []parser.Node) error {
-		if s, is := node.(*parser.VectorSelector); is {
-			var r reduction
-			r, ok = evalReductionRules(s, nodes, stepMin)
-			if ok {
-				what, rng, grouped, groupBy, without = r.what, r.step, r.grouped, r.groupBy, r.groupWithout
-				replaced = r.expr.String()
-			}
-		}
-		return nil
-	})
-	return
-}
-
-// VerifC27Exec is Engine.Exec that also returns the evaluator's time scale (Exec itself is NewEvaluator + Run).
-func VerifC27Exec(ng Engine, ctx context.Context, h Handler, qry Query) (parser.Value, func(), data_model.Timescale, error) {
+// VerifC27Exec is Engine.Exec that also returns the evaluator's time scale and the text of the expression the
+// evaluator decided to replace by a storage query ("" if no reduction rule matched). Exec itself is NewEvaluator + Run.
+func VerifC27Exec(ng Engine, ctx context.Context, h Handler, qry Query) (parser.Value, func(), data_model.Timescale, string, error) {
 	ev, err := ng.NewEvaluator(ctx, h, qry)
 	if err != nil {
-		return nil, nil, data_model.Timescale{}, err
+		return nil, nil, data_model.Timescale{}, "", err
+	}
+	var replaced string
+	for e := range ev.ars {
+		replaced = e.String()
 	}
 	v, cancel, err := ev.Run()
-	return v, cancel, ev.t, err
+	return v, cancel, ev.t, replaced, err
 }
